@@ -56,6 +56,9 @@ pub struct State {
     /// a stream that cannot seek relative to its end: every SeekFrom::End fails with ERROR_KINDS[k] (counted as a
     /// fired fault); SeekFrom::Start and reads work
     pub seek_end_fails: Option<u8>,
+    /// the stream claims to be this much longer than the bytes it can deliver (a file truncated after it was
+    /// measured): SeekFrom::End counts from data.len() + phantom_len, reads past data.len() return Ok(0)
+    pub phantom_len: u64,
 }
 
 #[derive(Clone)]
@@ -78,6 +81,10 @@ impl Reader {
     }
     pub fn without_seek_end(self, ekind: u8) -> Reader {
         self.st.borrow_mut().seek_end_fails = Some(ekind);
+        self
+    }
+    pub fn over_reporting(self, extra: u64) -> Reader {
+        self.st.borrow_mut().phantom_len = extra;
         self
     }
     pub fn calls(&self) -> u64 {
@@ -201,7 +208,7 @@ impl Reader {
             }
             return Err(io::Error::new(ERROR_KINDS[k as usize % ERROR_KINDS.len()], "this stream cannot seek from its end"));
         }
-        let len = st.data.len() as i128;
+        let len = st.data.len() as i128 + st.phantom_len as i128;
         let new: i128 = match to {
             SeekFrom::Start(p) => p as i128,
             SeekFrom::End(d) => len + d as i128,
